@@ -1232,3 +1232,30 @@ Proof.
   exfalso. apply NK. f_equal. eapply backfill_err. exact Eb.
 Qed.
 End NoKeyError.
+
+(* ------------------------------------------------------------------ the reduced tree as a tree *)
+(* the tree the marker reconciliation and the election are handed after drop_level answers
+   parents() like the taxonomy that never had the level: the ancestors of a node of the reduced
+   tree are its ancestors in the stored tree without the entry of the removed level *)
+Lemma reduce_drop_ancestors t li t' m : validate t = true -> wf t -> (li < length t)%nat ->
+  reduce t {| cfg_drop := Some li; cfg_flatten := false |} = TOk (t', m) ->
+  drop_level t li = TOk t' /\ m = remove_nth li (seq 0 (length t)) /\
+  (forall j x, ancestors t' j x = squash li (ancestors t (up_level li j) x)) /\
+  (forall j x p, In p (map snd (ancestors t' j x)) -> exists k, In p (nodes (nth k t' []))).
+Proof.
+  intros V W H R. unfold reduce in R. cbn [cfg_drop cfg_flatten] in R.
+  apply Nat.ltb_lt in H. rewrite H in R.
+  destruct (drop_level t li) as [t1|e] eqn:D; [|discriminate].
+  inversion R; subst t1 m. split; [reflexivity|]. split; [reflexivity|].
+  destruct (drop_ok_facts t li t' D) as [HS E]. subst t'.
+  split; [intros j x; apply raw_drop_ancestors; assumption|].
+  intros j. induction j as [|k IH]; intros x p Hin; [cbn in Hin; contradiction|].
+  cbn [ancestors] in Hin.
+  destruct (parent_of (nth k (raw_drop t li) []) x) as [q|] eqn:P; [|cbn in Hin; contradiction].
+  cbn [map snd] in Hin. destruct Hin as [<- | Hin].
+  - exists k. unfold parent_of in P.
+    destruct (find (fun pc => zmem x (snd pc)) (rev (nth k (raw_drop t li) []))) as [pc|] eqn:F; [|discriminate].
+    cbn [option_map] in P. inversion P; subst q. apply find_some in F. destruct F as [F _].
+    apply in_rev in F. unfold nodes. apply in_map. exact F.
+  - apply (IH q p Hin).
+Qed.
